@@ -6,7 +6,6 @@ from typing import TYPE_CHECKING
 from typing import Self
 
 from pest.grammar import Expression
-from pest.grammar.expressions.terminals import Identifier
 from pest.pairs import Pair
 
 if TYPE_CHECKING:
@@ -37,6 +36,21 @@ MODIFIER_MAP: dict[str, int] = {v: k for k, v in MODIFIER_SYMBOLS.items()}
 def modifier_to_str(flags: int) -> str:
     """Convert a modifier bit field into a string of symbols, in defined order."""
     return "".join(symbol for bit, symbol in MODIFIER_SYMBOLS.items() if flags & bit)
+
+
+def atomic_children(children: list[Pair]) -> list[Pair]:
+    """Return the pairs that stay visible inside an atomic rule.
+
+    An atomic rule hides its inner pairs, except for those produced by nested
+    compound atomic (`$`) or non-atomic (`!`) rules.
+    """
+    visible: list[Pair] = []
+    for child in children:
+        if child.rule.modifier & (COMPOUND | NONATOMIC):
+            visible.append(child)
+        else:
+            visible.extend(atomic_children(child.children))
+    return visible
 
 
 class Rule(Expression):
@@ -98,17 +112,8 @@ class Rule(Expression):
         tag: str | None = state.tag_stack.pop() if state.tag_stack else None
 
         if self.modifier & ATOMIC:  # TODO: COMMENT and WHITESPACE too?
-            if isinstance(self.expression, Rule):
-                rule: Rule | None = self.expression
-            elif isinstance(self.expression, Identifier):
-                assert state.parser
-                rule = state.parser.rules.get(self.expression.value)
-            else:
-                rule = None
-
-            if not rule or not rule.modifier & (NONATOMIC | COMPOUND):
-                # Atomic rule silences children
-                children = []
+            # Atomic rule silences children
+            children = atomic_children(children)
 
         pairs.append(
             Pair(
@@ -175,16 +180,7 @@ class Rule(Expression):
 
                 if self.modifier & ATOMIC:  # TODO: COMMENT and WHITESPACE too?
                     gen.writeln(f"# Atomic rule: {self.name!r}")
-                    assert gen.rules is not None
-                    if isinstance(self.expression, Rule):
-                        rule: Rule | None = self.expression
-                    elif isinstance(self.expression, Identifier):
-                        rule = gen.rules.get(self.expression.value)
-                    else:
-                        rule = None
-
-                    if not rule or not rule.modifier & (NONATOMIC | COMPOUND):
-                        children = "[]"
+                    children = f"atomic_children({inner_pairs})"
 
                 pair = (
                     f"Pair("
